@@ -137,14 +137,13 @@ JudgeCrash(r, names) ==
     THEN <<V(r.id, "violation", "", "mos test crashed (" \o o.panic \o ") outside the run of a test of the project")>>
   ELSE LET T == Layout(r.prj, names[k])
            w == IF T.ok THEN CrashWitness(T) ELSE "nolayout" IN
-       (IF w = "nolayout" \/ (w = "silent" /\ o.panic \in {"slice", "overflow"}) THEN <<>>
-        ELSE IF w = "slice" /\ o.panic = "slice" THEN <<V(r.id, "deviation", "RamWordAtTopPanics", "test " \o names[k] \o ": ram16($ffff) crashes mos test")>>
+       (IF w = "nolayout" \/ (w = "silent" /\ o.panic = "overflow") THEN <<>>
         ELSE IF w = "overflow" /\ o.panic = "overflow" THEN <<V(r.id, "deviation", "EmulatorOverflowAtTopOfMemory", "test " \o names[k] \o ": instruction at the top of memory crashes mos test")>>
         ELSE <<V(r.id, "violation", "", "test " \o names[k] \o ": mos test crashed (" \o o.panic \o ") instead of reporting a verdict")>>)
        \o PrefixVerdicts(r, names, 1, k - 1)
 
 Judge(r) ==
-  LET names == TestNames(r.prj.items, <<>>)
+  LET names == AllTests(r.prj)
       o == r.obs
       nfail == Cardinality({i \in 1..Len(o.tests) : o.tests[i].verdict = "failed"})
       nok == Cardinality({i \in 1..Len(o.tests) : o.tests[i].verdict = "ok"}) IN
@@ -152,6 +151,15 @@ Judge(r) ==
     THEN (IF \E k \in 1..Len(names) : LET T == Layout(r.prj, names[k]) IN ~T.ok \/ Ideal(T).v = "unspec" THEN <<>>
           ELSE <<V(r.id, "violation", "", "mos test does not terminate although every test reaches a verdict")>>)
   ELSE IF o.panic # "none" THEN JudgeCrash(r, names)
+  (* deviation ImportedTestListedTwice: the run stops (no summary, exit 1) right after the first test of an imported file,
+     when the same test is looked up again under its alias.  Witness: the project has a test in an imported file and the
+     tests run are exactly those of the entry file plus the first imported one. *)
+  ELSE IF o.aborted
+    THEN LET nown == Len(OwnTests(r.prj)) IN
+         IF Len(names) > nown /\ [i \in 1..Len(o.tests) |-> o.tests[i].name] = SubSeq(names, 1, nown + 1) /\ o.exit = 1
+           THEN <<V(r.id, "deviation", "ImportedTestListedTwice", "mos test stops after test " \o names[nown + 1] \o " of an imported file: no summary")>>
+                \o PrefixVerdicts(r, names, 1, nown + 1)
+           ELSE <<V(r.id, "violation", "", "mos test stopped without a summary")>>
   ELSE IF o.buildFailed
     THEN (IF \A k \in 1..Len(names) : Layout(r.prj, names[k]).ok
             THEN <<V(r.id, "drift", "", "the project is rejected by the assembler but has a layout in the model")>> ELSE <<>>)
